@@ -27,6 +27,7 @@ func RunC06(c *Ctx) {
 	// last few strings returned through it: a decoded string must stay what it was when later calls
 	// reuse the scratch (seeded change C06r5-m1 returned the freshly grown scratch itself)
 	var lazy []byte
+	bigScratch := make([]byte, 0, 128<<10)
 	type heldStr struct{ got, want string }
 	var held []heldStr
 	check := func(cs *h.Case) {
@@ -99,9 +100,16 @@ func RunC06(c *Ctx) {
 			}
 		})
 		c.Guarded(cs, "ReadString", func() {
-			for i := 0; i < 3; i++ {
+			for i := 0; i < 4; i++ {
 				var buf *[]byte
 				name := "ReadString(nil)"
+				if i == 3 {
+					if len(d) > 256 && c.Rec.R.Cases%4 != 0 {
+						continue
+					}
+					buf = &bigScratch
+					name = "ReadString(128 KiB scratch)"
+				}
 				if i == 1 {
 					buf = &scratch
 					name = "ReadString(dirty scratch)"
@@ -163,13 +171,25 @@ func RunC06(c *Ctx) {
 						c.Rec.Violate(cs, "UnescapeStringContent result depends on bytes beyond len(data)", "UnescapeStringContent", fmt.Sprintf("val=%q p=%d err=<nil>", ws, len(content)), fmt.Sprintf("val=%q p=%d err=%s", gb, pb, errStr(eb)))
 					}
 				}
-				for i := 0; i < 2; i++ {
+				for i := 0; i < 4; i++ {
 					var dst []byte
-					if i == 1 {
+					switch i {
+					case 1:
 						dst = make([]byte, 0, len(ws)/2)
+					case 2:
+						dst = dirty(32, 0x5a)[:0] // small, dirty, with spare capacity (C06r6-m2)
+					case 3:
+						dst = append(dirty(40, 0x5a)[:0], 'k', '=')
 					}
 					got, p, err := rjson.UnescapeStringContent(content, dst)
 					c.Rec.Evals(1)
+					if i == 3 {
+						if err == nil && len(got) >= 2 && got[0] == 'k' && got[1] == '=' {
+							got = got[2:]
+						} else {
+							got = append([]byte("<existing bytes lost>"), got...)
+						}
+					}
 					if err != nil || !bytes.Equal(got, ws) || p != len(content) {
 						c.Rec.Violate(cs, "UnescapeStringContent(content of well-formed token)!=model", "UnescapeStringContent",
 							fmt.Sprintf("val=%q p=%d err=<nil>", ws, len(content)), fmt.Sprintf("content=%q val=%q p=%d err=%s", content, got, p, errStr(err)))
@@ -210,6 +230,7 @@ func RunC06(c *Ctx) {
 	workload.W7Triples(sink)
 	workload.W7Adjacent(workload.W7AdjAligns, workload.W7AdjTails, sink)
 	workload.W7LongPositions(sink)
+	workload.W5([]int{3000, 70000}, sink) // long tokens: size thresholds of scratch handling
 	workload.W1Len(func(cs *h.Case) {
 		if cs.P[2] == 0 {
 			sink(cs)
